@@ -23,7 +23,37 @@ for f in sorted(os.listdir(ed)):
     if f.endswith(".go") and "__" in f:
         pkg, name = f.split("__", 1)
         rep[os.path.join(repo, pkg.replace("_", "/"), "zz_verif_" + name)] = os.path.join(ed, f)
+# rewrite seams: harness/rewrite/*.json = {"file": "<path in repo>", "subst": [[old, new, count], ...]}.  The repo file is
+# copied to build/rewrite/ with exactly these token substitutions and overlaid; a substitution whose
+# occurrence count differs fails the build (exit != 0 -> ./check exits 2: the check could not run).
+rd = os.path.join(verif, "harness", "rewrite")
+for f in sorted(os.listdir(rd)) if os.path.isdir(rd) else []:
+    if f.endswith(".json"):
+        spec = json.load(open(os.path.join(rd, f)))
+        src = open(os.path.join(repo, spec["file"])).read()
+        for old, new, cnt in spec["subst"]:
+            if src.count(old) != cnt:
+                sys.exit("rewrite %s: expected %d occurrence(s) of %r in %s" % (f, cnt, old, spec["file"]))
+            src = src.replace(old, new)
+        out = os.path.join(b, "rewrite", spec["file"].replace("/", "__"))
+        os.makedirs(os.path.dirname(out), exist_ok=True)
+        if not os.path.exists(out) or open(out).read() != src:
+            open(out, "w").write(src)
+        rep[os.path.join(repo, spec["file"])] = out
 json.dump({"Replace": rep}, open(os.path.join(b, "overlay.json"), "w"), indent=1)
 PY
+# two work packages must not register the same op or generator name (map assignment would silently pick one)
+python3 - "$VERIF" <<'PY' || { echo "ERROR harness: duplicate op/generator registration"; exit 2; }
+import re, sys, glob, collections
+seen = collections.defaultdict(list)
+for f in glob.glob(sys.argv[1] + "/harness/verifh/*.go"):
+    for m in re.finditer(r'(opTable|genTable)\["([^"]+)"\]\s*=\s*func', open(f).read()):
+        seen[(m.group(1), m.group(2))].append(f.split("/")[-1])
+dups = {k: v for k, v in seen.items() if len(v) > 1 and k != ("opTable", "case")}
+if dups:
+    print(dups); sys.exit(1)
+PY
 cd "$REPO"
-go build -modfile="$B/go.mod" -overlay="$B/overlay.json" -o "$B/verifh" github.com/nelhage/taktician/cmd/internal/verifh
+OUT="${VERIF_HARNESS_OUT:-$B/verifh}"
+go build -modfile="$B/go.mod" -overlay="$B/overlay.json" -o "$OUT.tmp$$" github.com/nelhage/taktician/cmd/internal/verifh
+mv -f "$OUT.tmp$$" "$OUT"
